@@ -140,6 +140,17 @@ def gen_enum(seed, k):
             if cur in used or cur > hi:
                 return None
             used.add(cur)
+    # `!k` right below its neighbour: the last variant gets the value just under the previous (explicit, non-positive) one
+    bang = None
+    if not has_fields and not int_repr and nv >= 2 and disc[nv - 2] is not None and disc[nv - 2] <= 0 and rng.random() < 0.3:
+        seen = set()
+        cur2 = -1
+        for i in range(nv - 1):
+            cur2 = disc[i] if disc[i] is not None else cur2 + 1
+            seen.add(cur2)
+        if disc[nv - 2] - 1 not in seen:
+            disc[nv - 1] = disc[nv - 2] - 1
+            bang = nv - 1
     # effective discriminant values by Rust's rule
     vals, cur = [], -1
     for i in range(nv):
@@ -156,23 +167,35 @@ def gen_enum(seed, k):
     # primitive representation (educe refuses non-literal discriminants otherwise — a documented limit)
     suffix = int_repr or "isize"
     dtxt = []
-    for d in disc:
+    maybe_refused = []
+    for di, d in enumerate(disc):
         if d is None:
             dtxt.append(None)
+            continue
+        if di == bang:
+            dtxt.append("!%d" % (-d - 1))
+            maybe_refused.append(True)
             continue
         forms = ["%d" % d]
         if d >= 0:
             forms += ["0x%X" % d, "%d_%s" % (d, suffix) if False else "%d%s" % (d, suffix), "0b%s" % bin(d)[2:], "0o%o" % d]
             if d >= 1000:
                 forms.append("{:,}".format(d).replace(",", "_"))
+        if not int_repr and d < 0 and rng.random() < 0.3:
+            # `!k` is a constant expression educe may refuse for an enum without a primitive representation (a
+            # documented limit) — but if it accepts it, the value is -k-1
+            forms = ["!%d" % (-d - 1)]
+            maybe_refused.append(True)
         if int_repr:
             forms += ["(%d) + 1" % (d - 1) if d - 1 >= lo else "%d" % d, "%d * 1" % d if d >= 0 else "-(%d)" % (-d)]
+            if d < 0:
+                forms.append("!%d" % (-d - 1))
             if d > 0 and d & (d - 1) == 0:
                 forms.append("1 << %d" % (d.bit_length() - 1))
         dtxt.append(rng.choice(forms))
     mode = rng.choice(["Ord", "Both", "Both", "PartialOrd"])
     return {"disc_txt": dtxt, "variants": variants, "reprs": reprs, "disc": disc, "dvals": vals, "generic": generic, "mode": mode,
-            "int_repr": int_repr}
+            "int_repr": int_repr, "maybe_refused": bool(maybe_refused)}
 
 
 def render(e, strip=False):
@@ -328,6 +351,10 @@ def judge_obs(chk, which, cases, obs, bad_base, dropped):
             continue
         text = render(e)
         files = {"case.rs": module(cid, e, vals), "descriptor.json": json.dumps(e, indent=1)}
+        if cid in dropped and e.get("maybe_refused") and any(d.get("code") is None for d in dropped[cid]):
+            # refused by educe itself (non-literal discriminant without a primitive representation): allowed
+            chk.count("refused-non-literal-discriminant")
+            continue
         if cid in dropped:
             # the enum is valid Rust (baseline) but the derive does not compile: that is C01's finding;
             chk.inconc("does-not-compile (see C01)")
